@@ -6,18 +6,38 @@
     granularity). As decision rules: a dependent of a failed (not allow_failure) or canceled stage is never launched; a
     stage is ready exactly when every dependency is done, skipped or failed with allow_failure; an acknowledged cancel
     (also the fail-fast one) makes the job end canceled (C04_ends_canceled).
+    The verdict clause is proved over every history (C08_verdict_sound, C08_reported_verdict_sound): when a job's
+    scheduler returns and the job is reported completed, not canceled and without error, every stage is done and every
+    task's commands began and ended successfully — or failed while marked allow_failure — in this history, each exactly
+    once (proofs/VerdictProps.v: an invariant over System.reach relating stage statuses, pending notifications, the
+    recorded error, the cancel causes and the ghost log).
     NOT proved (decided by the monitor on every executed history and by the step-exact comparison of all task / job
-    fields): completed ∧ ¬canceled ∧ no error ⇒ every task succeeded; fail-fast tells the running tasks; with
-    continue_running_tasks_after_failure independent tasks complete. *)
+    fields): fail-fast tells the running tasks; with continue_running_tasks_after_failure independent tasks complete. *)
 From stdpp Require Import list.
 From Coq Require Import ZArith.
-From PV Require Import System Runner proofs.SchedProps proofs.StageProps.
+From PV Require Import System Runner proofs.SchedProps proofs.OnceProps proofs.StageProps proofs.SystemProps proofs.VerdictProps.
 
 (** over every history: the step that completes a job leaves it completed with no task reported running *)
 Theorem C08_completed_no_task_running : ∀ s id s' r,
   reach s → step s (EvSchedReturn id) = Some (s', r) →
   ∀ j', get_job s' id = Some j' → j_completed j' = true ∧ ∀ t, t ∈ j_tasks j' → jt_status t ≠ Running.
 Proof. exact completed_no_running. Qed.
+
+(** over every history: the verdict "completed, not canceled, no error" is only given when every stage is done and every
+    task began and ended successfully (ORunEnded .. true is logged for success and for a failure marked allow_failure) *)
+Theorem C08_verdict_sound : ∀ s id s' r j sc,
+  reach s → step s (EvSchedReturn id) = Some (s', r) → get_job s id = Some j → j_sched j = Some sc →
+  j_canceled j = false → j_cancel_req j = false → sc_lasterr sc = None →
+  ∀ t, t ∈ j_tasks j → stage_status sc (jt_name t) = Some Done ∧ ran_ok (st_ghost s) id (jt_name t).
+Proof. exact verdict_sound. Qed.
+
+(** the same on the job record the API reports afterwards; each task began exactly once *)
+Theorem C08_reported_verdict_sound : ∀ s id s' r j j',
+  reach s → step s (EvSchedReturn id) = Some (s', r) → get_job s id = Some j → get_job s' id = Some j' →
+  j_completed j' = true ∧
+  (j_canceled j' = false → j_lasterr j' = None →
+   ∀ t, t ∈ j_tasks j' → ran_ok (st_ghost s) id (jt_name t) ∧ began (st_ghost s) id (jt_name t) = 1%nat).
+Proof. exact reported_verdict_sound. Qed.
 
 Theorem C08_dependents_never_launched_partial : ∀ sc j n d,
   d ∈ task_deps j n →
@@ -47,6 +67,22 @@ Example C08_ex_dependent_never_runs :
     <$> get_job s 0 = Some (true, false, Some EFail, [Error; Done; Waiting], [Some 0%Z; Some 0%Z; None]).
 Proof. vm_compute. done. Qed.
 
+(** the verdict theorem is not vacuous: a job with a dependent task and a failing allow_failure task ends successful *)
+Definition ok_defs : defs :=
+  [(0%nat, PDef 1 None false 0 false 0 0 0 [(0%nat, t [] false); (1%nat, t [0%nat] true)])].
+Definition ok_run : list event :=
+  [EvSchedule 0 VNone 0; EvIterBegin 0; EvVisit 0 0; EvVisit 0 1; EvRunBegin 0 0; EvRunEnd 0 0 OutOk; EvNotify 0 0;
+   EvIterBegin 0; EvVisit 0 0; EvVisit 0 1; EvRunBegin 0 1; EvRunEnd 0 1 (OutFail 3); EvNotify 0 1;
+   EvIterBegin 0; EvVisit 0 0; EvVisit 0 1].
+Example C08_ex_verdict_premises :
+  let s := exec (init ok_defs) ok_run in
+  reach s ∧ is_Some (step s (EvSchedReturn 0)) ∧
+  (fun j => (j_canceled j, j_cancel_req j, sc_lasterr <$> j_sched j, map jt_name (j_tasks j))) <$> get_job s 0
+    = Some (false, false, Some None, [0; 1]%nat).
+Proof. split; [apply reach_exec, reach_init|]. split; vm_compute; [by eexists|done]. Qed.
+
+Print Assumptions C08_verdict_sound.
+Print Assumptions C08_reported_verdict_sound.
 Print Assumptions C08_completed_no_task_running.
 Print Assumptions C08_dependents_never_launched_partial.
 Print Assumptions C08_ready_iff_deps_ok.
